@@ -25,7 +25,7 @@ BOUNDS = {"quick": "structural: all element lists over {H,C,N,O,F,S,P,Pt,B} (non
                    "allow_charged_fragments in {False, True} with charge in {-1,0,1}; chemical: all valence-correct connected molecules with <= 4 atoms over "
                    "{H,C,N,O,F,S(II/VI),P(III/V),Cl}, bond orders <= 3, 6 atom orders each",
           "thorough": "structural <= 5 atoms (elements H,C,N,O,S,Pt); chemical <= 5 atoms, all atom orders"}
-OUTSIDE = "molecules with more than 5 atoms, hence benzene-size aromatic systems; Br, I (same valence pattern as Cl); hypervalent S(VI)/P(V) inside a three-membered ring (recorded finding); elements without an entry in the valence-electron table (the function raises)"
+OUTSIDE = "molecules with more than 5 atoms, hence benzene-size aromatic systems; Br, I (same valence pattern as Cl); hypervalent S(VI)/P(V) inside a three-membered ring and S(VI) carrying two triple bonds (recorded findings); elements without an entry in the valence-electron table (the function raises)"
 ASSUMPTIONS = ["standard valences as in the property statement: H1 C4 N3 O2 F1 Cl1 S2/6 P3/5"]
 
 
@@ -174,7 +174,16 @@ def _chem_pre(n):
         for j, k in itertools.combinations([x for x in range(n) if x != i], 2):
             pre.append(f"not (e{i} in (5, 6) and ({row}) > (2 if e{i} == 5 else 3) and {names[tuple(sorted((i, j)))]} > 0 and "
                        f"{names[tuple(sorted((i, k)))]} > 0 and {names[(j, k)]} > 0)")
+    # recorded finding (known_findings.json): S(VI) that carries two triple bonds (X#S#Y), found by the thorough tier on five-atom chains
+    for i in range(n):
+        for j, k in itertools.combinations([x for x in range(n) if x != i], 2):
+            pre.append(f"not (e{i} == 5 and {names[tuple(sorted((i, j)))]} == 3 and {names[tuple(sorted((i, k)))]} == 3)")
     return pre
+
+
+def finding_sulfur_two_triple_bonds():
+    """witness: chain P3#C0-C1#S2#P4 (elements C, C, S, P, P): the valence-correct assignment 3/1/3/3 exists, the search returns C=C, C=P, C=S and an S-P bond of order 4"""
+    return chemical(n=5, e0=1, e1=1, e2=5, e3=6, e4=6, b01=1, b02=0, b03=3, b04=0, b12=3, b13=0, b14=0, b23=0, b24=3, b34=0)
 
 
 def finding_hypervalent_ring():
